@@ -65,6 +65,9 @@ func exprString(e ast.Expr) string {
 func (ev *Eval) term(e ast.Expr) Term {
 	v := ev.eval(e)
 	switch w := v.(type) {
+	case *UndefV:
+		// a value that does not exist on this path (result of a call that did not happen): unconstrained
+		return ev.x.global("undef@int", SInt)
 	case *Prim:
 		return w.T
 	case *PtrV:
